@@ -36,6 +36,8 @@ macro_rules! rust_loc {
             @no_impl CODEMAP: CodeMap = NativeCodeMap::to_codemap(NATIVE_CODEMAP_STATIC)
         );
         static FRAME_SPAN: LazyLock<FrameSpan> = LazyLock::new(|| {
+            #[cfg(feature = "verif_hooks")]
+            let _no_preempt = crate::verif_hooks::NoPreempt::enter();
             FrameSpan::new(FrozenFileSpan::new_unchecked(
                 CODEMAP.unpack_any(),
                 NativeCodeMap::FULL_SPAN,
